@@ -5,11 +5,12 @@
 import MjwVerif.Lemmas.C01
 import MjwVerif.Lemmas.Real
 import MjwVerif.Props.C23
+import MjwVerif.Lemmas.C01Tree
 
 set_option linter.unusedVariables false
 set_option linter.unusedSimpArgs false
 namespace Mjw.Lemmas.C01R
-open Mjw Mjw.Gen.Math Mjw.Spec.Kinematics Mjw.Lemmas.C01 Mjw.Props.C23
+open Mjw Mjw.Gen.Math Mjw.Spec.Kinematics Mjw.Lemmas.C01 Mjw.Props.C23 Mjw.Lemmas.C13
 
 /-- mjMINVAL as a real -/
 noncomputable def minval : ℝ := 1e-15
@@ -280,6 +281,26 @@ theorem kinBodyW_unit (parent : Option (Pose ℝ)) (bp : BodyParams ℝ) (joints
     · simp only [h0, if_false]; exact hreg
   | _ :: _ :: _, hreg => exact hreg
 
+/-- a mocap body (child of the world, no joints) with a NON-unit but regular `mocap_quat`: mujoco_warp composes the
+    raw quaternion with the world pose and normalises at the end, MuJoCo normalises first (and again at the end) —
+    same result -/
+theorem mocap_body_eq_spec (bp : BodyParams ℝ) (mp : V3 ℝ) (mq : Q ℝ) (hm : bp.mocap = some (mp, mq)) (hr : Regular mq)
+    (qpos qpos0 : Int → ℝ) :
+    kinBodyW (some worldPose) bp [] qpos qpos0 = kinBody none bp [] qpos qpos0 := by
+  have hf : bodyFrameW (some worldPose) bp = ⟨mp, mq⟩ := by
+    unfold bodyFrameW worldPose
+    rw [hm]
+    simp only
+    congr 1
+    · apply V3.ext' <;>
+        simp only [rot_vec_quat, V3.add, V3.smul, V3.dot, V3.cross, hadd, hsub, hmul, slit] <;> norm_num
+    · apply Q.ext' <;> simp only [mul_quat, hadd, hsub, hmul] <;> ring
+  have hs : bodyFrame none bp = ⟨mp, normalize4 mq⟩ := by
+    unfold bodyFrame; rw [hm]
+  show regularBodyW (some worldPose) bp [] qpos qpos0 = regularBody none bp [] qpos qpos0
+  unfold regularBodyW regularBody
+  simp only [jointsFoldW, jointsFold, hf, hs, normalize4_regular hr, normalize4_unit (normalize_unit _)]
+
 /-! ### the chain -/
 
 /-- **the kernel's chain recursion equals MuJoCo's sequential recursion**, when the stored world pose is
@@ -300,5 +321,164 @@ theorem kinChainW_eq_spec (bp : Nat → BodyParams ℝ) (jn : Nat → List (Join
         subst this
         cases i <;> exact kinBodyW_unit _ _ _ _ _)
       (hb (i + 1) (Nat.le_refl _))
+
+/-! ### what `Spec.kinBody` is, per joint type (single-joint bodies; closed forms, any scalar type) -/
+
+section closed_forms
+variable {K : Type} [Scalar K]
+
+/-- FREE: position and (twice normalised) quaternion straight from qpos; anchor = position, axis = jnt_axis -/
+theorem kinBody_free (parent : Option (Pose K)) (bp : BodyParams K) (j : Joint K) (qpos qpos0 : Int → K)
+    (h : j.type = 0) :
+    kinBody parent bp [j] qpos qpos0
+      = ⟨⟨⟨qpos j.qadr, qpos (j.qadr + 1), qpos (j.qadr + 2)⟩, normalize4 (normalize4 (qposQuat qpos (j.qadr + 3)))⟩,
+         [(⟨qpos j.qadr, qpos (j.qadr + 1), qpos (j.qadr + 2)⟩, j.axis)]⟩ := by
+  simp [kinBody, freeBody, jFREE, h]
+
+/-- SLIDE: translate along the rotated axis by `qpos − qpos0`; orientation = normalised frame orientation -/
+theorem kinBody_slide (parent : Option (Pose K)) (bp : BodyParams K) (j : Joint K) (qpos qpos0 : Int → K)
+    (h : j.type = 2) :
+    kinBody parent bp [j] qpos qpos0
+      = (let F := bodyFrame parent bp
+         let xaxis := rotVecQuat j.axis F.quat
+         ⟨⟨V3.add F.pos (V3.muls xaxis (qpos j.qadr - qpos0 j.qadr)), normalize4 F.quat⟩,
+          [(V3.add (rotVecQuat j.pos F.quat) F.pos, xaxis)]⟩) := by
+  simp [kinBody, regularBody, jointsFold, jointApply, jFREE, jSLIDE, h]
+
+/-- HINGE: rotate by `qpos − qpos0` about the axis through the anchor -/
+theorem kinBody_hinge (parent : Option (Pose K)) (bp : BodyParams K) (j : Joint K) (qpos qpos0 : Int → K)
+    (h : j.type = 3) :
+    kinBody parent bp [j] qpos qpos0
+      = (let F := bodyFrame parent bp
+         let xanchor := V3.add (rotVecQuat j.pos F.quat) F.pos
+         let q := mulQuat F.quat (axisAngle2Quat j.axis (qpos j.qadr - qpos0 j.qadr))
+         ⟨⟨V3.sub xanchor (rotVecQuat j.pos q), normalize4 q⟩, [(xanchor, rotVecQuat j.axis F.quat)]⟩) := by
+  simp [kinBody, regularBody, jointsFold, jointApply, jFREE, jSLIDE, jBALL, jHINGE, h]
+
+/-- BALL: rotate by the normalised quaternion in qpos about the anchor -/
+theorem kinBody_ball (parent : Option (Pose K)) (bp : BodyParams K) (j : Joint K) (qpos qpos0 : Int → K)
+    (h : j.type = 1) :
+    kinBody parent bp [j] qpos qpos0
+      = (let F := bodyFrame parent bp
+         let xanchor := V3.add (rotVecQuat j.pos F.quat) F.pos
+         let q := mulQuat F.quat (normalize4 (qposQuat qpos j.qadr))
+         ⟨⟨V3.sub xanchor (rotVecQuat j.pos q), normalize4 q⟩, [(xanchor, rotVecQuat j.axis F.quat)]⟩) := by
+  simp [kinBody, regularBody, jointsFold, jointApply, jFREE, jSLIDE, jBALL, jHINGE, h]
+
+/-- several joints per body = fold of `jointApply` over the body's joints, in order -/
+theorem kinBody_joints (parent : Option (Pose K)) (bp : BodyParams K) (j1 j2 : Joint K) (js : List (Joint K))
+    (qpos qpos0 : Int → K) :
+    kinBody parent bp (j1 :: j2 :: js) qpos qpos0
+      = (let r := jointsFold qpos qpos0 (j1 :: j2 :: js) (bodyFrame parent bp)
+         ⟨⟨r.1.pos, normalize4 r.1.quat⟩, r.2⟩) := rfl
+
+end closed_forms
+
+
+/-- the thread reads the stored world pose (0, identity) for the parent of the chain root -/
+theorem parentOf_root (a : KinArgs ℝ) (w br : Int) (h : WF a br) (hlen : 0 < chainLen a br)
+    (hwp : a.xpos_out w 0 = ⟨0, 0, 0⟩) (hwq : a.xquat_out w 0 = ⟨1, 0, 0, 0⟩) :
+    parentOf a w [] (chainBody a br 0) = some worldPose := by
+  unfold parentOf
+  rw [h.root hlen, if_pos (le_refl _)]
+  simp only [Write.lookupV, List.foldl_nil, hwp, hwq, V3_ofList_toList, Q_ofList_toList, worldPose]
+
+
+open Mjw.Lemmas.C01Tree in
+/-- `Spec.comBackward` (`for i = n-1 … 1: com[parent i] += com[i]`) is the abstract `seqAcc` at `V3.add` -/
+theorem comBackward_eq_seqAcc {K : Type} [Scalar K] (p : Nat → Nat) : ∀ (n : Nat) (c : Nat → V3 K),
+    comBackward p n c = seqAcc V3.add p n c
+  | 0, _ => rfl
+  | 1, _ => rfl
+  | n + 2, c => by rw [comBackward, seqAcc]; exact comBackward_eq_seqAcc p (n + 1) _
+
+theorem v3_add_comm (a b : V3 ℝ) : V3.add a b = V3.add b a := by
+  apply V3.ext' <;> simp only [V3.add, hadd] <;> ring
+theorem v3_add_assoc (a b c : V3 ℝ) : V3.add (V3.add a b) c = V3.add a (V3.add b c) := by
+  apply V3.ext' <;> simp only [V3.add, hadd] <;> ring
+
+
+/-! ### a concrete two-body chain meeting every hypothesis (used by the `example`s of Props/C01) -/
+
+/-- world 0 + body 1 (FREE joint 0, qpos 0..6) + body 2 = child of 1 (HINGE joint 1 about z, qpos 7);
+    one branch `[1, 2]`; qpos = (0,0,0, 1,0,0,0, 0) -/
+noncomputable def exArgs : KinArgs ℝ where
+  qpos0 := fun _ _ => 0
+  body_parentid := fun b => b - 1
+  body_mocapid := fun _ => -1
+  body_jntnum := fun _ => 1
+  body_jntadr := fun b => b - 1
+  body_pos := fun _ _ => ⟨1, 0, 0⟩
+  body_quat := fun _ _ => ⟨1, 0, 0, 0⟩
+  jnt_type := fun j => if j = 0 then 0 else 3
+  jnt_qposadr := fun j => if j = 0 then 0 else 7
+  jnt_pos := fun _ _ => ⟨0, 0, 0⟩
+  jnt_axis := fun _ _ => ⟨0, 0, 1⟩
+  body_branches := fun i => i + 1
+  body_branch_start := fun b => if b = 0 then 0 else 2
+  qpos_in := fun _ i => if i = 3 then 1 else 0
+  mocap_pos_in := fun _ _ => ⟨0, 0, 0⟩
+  mocap_quat_in := fun _ _ => ⟨1, 0, 0, 0⟩
+  xpos_out := fun _ _ => ⟨0, 0, 0⟩
+  xquat_out := fun _ _ => ⟨1, 0, 0, 0⟩
+  xanchor_out := fun _ _ => ⟨0, 0, 0⟩
+  xaxis_out := fun _ _ => ⟨0, 0, 0⟩
+  jnt_axis_shape0 := 1
+  jnt_pos_shape0 := 1
+  body_pos_shape0 := 1
+  body_quat_shape0 := 1
+  qpos0_shape0 := 1
+
+theorem exArgs_chainLen : chainLen exArgs 0 = 2 := by simp [chainLen, exArgs]
+theorem exArgs_chainBody (k : Nat) : chainBody exArgs 0 k = (k : Int) + 1 := by simp [chainBody, exArgs]
+
+/-- the example chain is well formed (`WF`, hence `Linked`) -/
+theorem exArgs_wf : WF exArgs 0 where
+  linked := by
+    intro k hk
+    rw [exArgs_chainLen] at hk
+    have : k = 0 := by omega
+    subst this
+    simp only [exArgs_chainBody]
+    simp [exArgs]
+  root := by intro _; simp only [exArgs_chainBody]; simp [exArgs]
+  pos := by intro k _; rw [exArgs_chainBody]; omega
+
+/-- every body of the example chain satisfies `BodyOK` -/
+theorem exArgs_bodyOK (k : Nat) (hk : k < chainLen exArgs 0) :
+    BodyOK (bpAt exArgs 0 (chainBody exArgs 0 k)) (jointsOf exArgs 0 (chainBody exArgs 0 k)) (exArgs.qpos_in 0) := by
+  rw [exArgs_chainLen] at hk
+  have hunit : nrm2 (⟨1, 0, 0, 0⟩ : Q ℝ) = 1 := by norm_num [nrm2]
+  rcases (by omega : k = 0 ∨ k = 1) with rfl | rfl
+  · have hj : jointsOf exArgs 0 (chainBody exArgs 0 0) = [⟨0, 0, ⟨0, 0, 0⟩, ⟨0, 0, 1⟩⟩] := by
+      simp only [exArgs_chainBody]
+      simp [jointsOf, jointList, jointAt, exArgs]
+    rw [hj]
+    refine ⟨?_, ?_, ?_⟩
+    · simpa [selQuat, bpAt, exArgs] using hunit
+    · intro j hj'
+      simp only [List.mem_singleton] at hj'
+      subst hj'
+      exact ⟨fun h => by simp at h, fun h => by simp at h⟩
+    · intro j hj' _
+      have : j = ⟨0, 0, ⟨0, 0, 0⟩, ⟨0, 0, 1⟩⟩ := by simpa using hj'.symm
+      subst this
+      apply regular_of_unit
+      simp [qposQuat, exArgs, nrm2]
+  · have hj : jointsOf exArgs 0 (chainBody exArgs 0 1) = [⟨3, 7, ⟨0, 0, 0⟩, ⟨0, 0, 1⟩⟩] := by
+      simp only [exArgs_chainBody]
+      simp [jointsOf, jointList, jointAt, exArgs]
+    rw [hj]
+    refine ⟨?_, ?_, ?_⟩
+    · simpa [selQuat, bpAt, exArgs] using hunit
+    · intro j hj'
+      simp only [List.mem_singleton] at hj'
+      subst hj'
+      exact ⟨fun _ => by norm_num [vnrm2], fun h => by simp at h⟩
+    · intro j hj' h0
+      have : j = ⟨3, 7, ⟨0, 0, 0⟩, ⟨0, 0, 1⟩⟩ := by simpa using hj'.symm
+      subst this
+      simp at h0
+
 
 end Mjw.Lemmas.C01R
